@@ -20,8 +20,9 @@
      event after a close or a fatal error; proved equal to Attach.feed (C15).
 
    Not modelled: OS behaviour (RST delivery, accept backlog, descriptors), memory exhaustion (a
-   65535-slot table per message id; a buffer that does not start with 7e grows for ever), String()
-   of the logged values, conn.Write failing. *)
+   65535-slot table per message id; a buffer that does not start with 7e grows for ever: findings
+   C10/808/memory-exhaustion, C10/*/unbounded-buffer), String() of the logged values, active platform commands.
+   A failing conn.Write IS modelled (event WriteErr, k_broken). *)
 From JT.Base Require Import Prelude.
 From JT.Model Require Import Frame Unpack Subpkg.
 From JT.Model Require Ranges Reply Attach Location Total_base Total_msgs.
@@ -145,7 +146,7 @@ Fixpoint cp_loop_chk (now : N) (s : pstate) (ms : list (list N * msg)) : result 
 (* packageParse.parse *)
 Definition parse_chk (now : N) (st : pst) (d : list N) : result (pst * list pmsg * option N) :=
   o <- unpack_chk (ps_hist st) d ;;
-  r <- cp_loop_chk now (ps_x st) (u_msgs o) ;;
+  r <- cp_loop_chk now (delete_timeout now (ps_x st)) (u_msgs o) ;;     (* fix 4f00aa1: stale transfers dropped first *)
   let '(s2, rrs) := housekeeping now (fst r) in
   Ok ({| ps_hist := u_hist o; ps_x := s2 |}, snd r ++ map rereq_pmsg rrs, u_err o).
 
@@ -527,14 +528,27 @@ Definition feed_chk (d : N) (s : st) (seg : list N) : result (list N * st * bool
 
 (* a connection of the attachment server: Some st while run() is in its read loop, None after run()
    returned because of a fatal error (the socket stays open but is no longer read) *)
+(* what a connection of the attachment server does to the outside world *)
+Inductive aobs :=
+| AWrite (w : list N)                                      (* conn.Write *)
+| AStopped                                                 (* run() returned after a fatal error: the socket is no longer read *)
+| ASaved (dir : list N) (files : list (list N * list N)).  (* the default file handler at SuccessQuit: MkdirAll(dir), os.WriteFile(path, content) *)
+
 Record srvatt := {
   a_conns : list (N * option (st * bool));   (* + conn.Write fails *)
-  a_log : list (N * list N);       (* bytes written, newest first *)
+  a_log : list (N * aobs);         (* newest first *)
   a_crashed : bool
 }.
 Definition initatt : srvatt := {| a_conns := []; a_log := []; a_crashed := false |}.
 
 Definition crashatt (s : srvatt) : srvatt := {| a_conns := a_conns s; a_log := a_log s; a_crashed := true |}.
+
+(* fileEvent.OnEvent in stage SuccessQuit (Attach.on_quit_saves): what the final event writes to the file system *)
+Definition att_saves (c : N) (k : st) : list (N * aobs) :=
+  match on_quit_saves (quit k) with
+  | Some (dir, files) => [(c, ASaved dir files)]
+  | None => []
+  end.
 
 Definition stepatt (d : N) (s : srvatt) (e : sev) : srvatt :=
   if a_crashed s then s else
@@ -555,10 +569,11 @@ Definition stepatt (d : N) (s : srvatt) (e : sev) : srvatt :=
         if (stop : bool) then
           (* the deferred final event of run() *)
           match on_event_chk d (set_stage k'' ST_FAIL_QUIT) with
-          | Ok _ => {| a_conns := cset c None (a_conns s); a_log := (c, w') :: a_log s; a_crashed := false |}
+          | Ok _ => {| a_conns := cset c None (a_conns s); a_log := (c, AStopped) :: (c, AWrite w') :: a_log s;
+                       a_crashed := false |}
           | _ => crashatt s
           end
-        else {| a_conns := cset c (Some (k'', br)) (a_conns s); a_log := (c, w') :: a_log s; a_crashed := false |}
+        else {| a_conns := cset c (Some (k'', br)) (a_conns s); a_log := (c, AWrite w') :: a_log s; a_crashed := false |}
       | _ => crashatt s
       end
     | _, _ => s
@@ -567,7 +582,7 @@ Definition stepatt (d : N) (s : srvatt) (e : sev) : srvatt :=
     match cfind c (a_conns s) with
     | Some (Some (k, _)) =>
       match on_event_chk d (quit k) with
-      | Ok _ => {| a_conns := cremove c (a_conns s); a_log := a_log s; a_crashed := false |}
+      | Ok _ => {| a_conns := cremove c (a_conns s); a_log := att_saves c k ++ a_log s; a_crashed := false |}
       | _ => crashatt s
       end
     | Some None => {| a_conns := cremove c (a_conns s); a_log := a_log s; a_crashed := false |}
@@ -582,8 +597,12 @@ Definition stepatt (d : N) (s : srvatt) (e : sev) : srvatt :=
 
 Definition outcomeatt (s : srvatt) : fate := if a_crashed s then Crash else Running.
 Definition runatt (d : N) (evs : list sev) : srvatt := fold_left (stepatt d) evs initatt.
-Definition seenatt (c : N) (s : srvatt) : list N :=
-  concat (map snd (filter (fun x => fst x =? c) (rev (a_log s)))).
+(* everything connection c caused, oldest first: the bytes written to it, whether its run() stopped reading, the
+   files its final event stored *)
+Definition seenatt (c : N) (s : srvatt) : list aobs :=
+  map snd (filter (fun x => fst x =? c) (rev (a_log s))).
+Definition bytesatt (c : N) (s : srvatt) : list N :=
+  flat_map (fun o => match o with AWrite w => w | _ => [] end) (seenatt c s).
 
 (* ---------- specification vocabulary for isolation ---------- *)
 Definition ev_conn (e : sev) : N := match e with Connect c => c | Data c _ _ => c | Close c => c | WriteErr c => c end.
@@ -654,3 +673,7 @@ Fixpoint unclaimed (parse_all : bool) (c : N) (s : srv808) (evs : list sev) : bo
     | _ => true
     end && unclaimed parse_all c (step808 parse_all s e) t
   end.
+
+(* connection c owns no key after any prefix of the events (it never joined, or whatever it claimed was refused) *)
+Definition never_owns (parse_all : bool) (c : N) (s : srv808) (evs : list sev) : bool :=
+  forallb (fun n => holds_no_key c (fold_left (step808 parse_all) (firstn n evs) s)) (seq 0 (S (length evs))).
